@@ -20,12 +20,11 @@ _built = {}
 def build(spec, registry, root_bases=()):
     """dataclass for a spec (bottom-up); registry: name -> class.  Declaration styles: per-field
     kw_only, class-level kw_only / frozen / slots, a base class holding a prefix of the fields."""
-    fields = []
-    for f in spec['fields']:
+    def decl(f):
         if f['kind'] == 'leaf':
-            tp = {'int': int, 'str': str, 'ints': typing.List[int]}[f['ty']]
+            tp = {'int': int, 'str': str, 'ints': (list if f.get('bare_list') else typing.List[int])}[f['ty']]
         else:
-            inner = build(f['cls'], registry)
+            inner = registry.get(f['cls']['name']) or build(f['cls'], registry)
             tp = inner if f['kind'] == 'nested' else typing.List[inner]
         kw = {}
         if not f['init']:
@@ -43,7 +42,8 @@ def build(spec, registry, root_bases=()):
             else:  # a fresh complete instance of the nested class
                 inner_spec = f['cls']
                 kw['default_factory'] = (lambda s=inner_spec: make_full(s, registry))
-        fields.append((f['name'], tp, dataclasses.field(**kw)))
+        return (f['name'], tp, dataclasses.field(**kw))
+    fields = [decl(f) for f in spec['fields']]
     opts = {}
     if spec.get('kw_only_cls'):
         opts['kw_only'] = True
@@ -54,9 +54,13 @@ def build(spec, registry, root_bases=()):
     bases = tuple(root_bases)
     k = spec.get('base_split')
     if k:
-        base = dataclasses.make_dataclass(spec['name'] + 'Base', fields[:k], bases=bases, **opts)
-        bases = (base,)
-        fields = fields[k:]
+        # the base declares the first k fields (its own versions); the subclass re-declares the overridden
+        # ones (they keep their position) and adds the rest.  JSONWizard, if any, is mixed into the subclass only.
+        bfields = spec.get('base_fields') or spec['fields'][:k]
+        base = dataclasses.make_dataclass(spec['name'] + 'Base', [decl(b) for b in bfields], **opts)
+        registry[spec['name'] + 'Base'] = base
+        bases = (base,) + bases
+        fields = [fd for fd, b in zip(fields[:k], bfields) if b.get('overridden')] + fields[k:]
     cls = dataclasses.make_dataclass(spec['name'], fields, bases=bases, **opts)
     cls.__qualname__ = spec['name']
     registry[spec['name']] = cls
@@ -188,6 +192,18 @@ def run_class(item):
         if item['engine'] == 'v1':
             LoadMeta(v1=True).bind_to(cls)
         load = loader_for(cls, entry)
+        # history: base classes used first (loaded with the same engine, then dumped)
+        from dataclass_wizard import fromdict, asdict
+        for pre in item.get('pre') or []:
+            base = registry.get(pre['cls'] + 'Base')
+            if base is None:
+                continue
+            try:
+                if item['engine'] == 'v1':
+                    LoadMeta(v1=True).bind_to(base)
+                asdict(fromdict(base, pre['doc']))
+            except Exception:
+                pass
     except BaseException as e:
         r = err_info(e); r['phase'] = 'setup'
         return [r for _ in item['docs']]
